@@ -24,7 +24,8 @@ EXPLANATION = (
     ' Also in R2: handlers of streaming (generator) helpers of the parsers may not end the stream quietly; in R4: every call of the verifying readers receives the RESOLVED verify flag (argument -> environment -> default ON), also through helpers and closures.'
     ' (R6) who may turn a data file into rows: every Parquet read lies in the two verifying readers or a reasoned list.'
     ' (R7) the manifest parsers drop no entry; (R8) the checksum functions hash every byte and the verify functions return computed == expected.'
-    ' (R11) who may produce a recorded checksum / size: the function that wrote the file, a copy, or the manifest decoder - never a later re-hash of stored bytes.')
+    ' (R11) who may produce a recorded checksum / size: the function that wrote the file, a copy, or the manifest decoder - never a later re-hash of stored bytes.'
+    ' (R12) the metadata decoder reads every key the encoder writes with a subscript; (R13) no sync_interval on the Avro writers. R3: the de-duplication key is the path itself; R4: verify_checksums is handed on unchanged (None stays None) at every hop.')
 NOT_DECIDED = ("damage classes that still parse (Avro cut at a block boundary, a sibling file that is valid JSON); "
                "pyarrow's behaviour on corrupt pages when verification is off")
 
@@ -70,6 +71,8 @@ def check(ctx: Ctx) -> None:
     parsers_keep_every_entry(ctx)
     hashers_hash_everything(ctx)
     checksum_producers(ctx)
+    metadata_reader_is_strict(ctx)
+    avro_blocks_not_shrunk(ctx)
     # "a broken table is never reported as an empty one": hint-less recovery sees every metadata file only if the listing is complete
     from .c20 import r10_listing_exhaustive
     r10_listing_exhaustive(ctx, "C14.R9")
@@ -85,6 +88,60 @@ ROW_SOURCE_OWNERS: Dict[str, str] = {
     "datashard.data_operations.DataFileManager.read_data_file": "low-level utility (no caller inside the package)",
     "datashard.data_operations.DataFileManager.read_pandas_file": "low-level utility (no caller inside the package)",
 }
+
+
+def avro_blocks_not_shrunk(ctx: Ctx, rid: str = "C14.R13") -> None:
+    ctx.rule(rid, "manifests are written as few Avro blocks as the library default gives: no fastavro.writer call passes "
+             "`sync_interval` - a small block size turns every ordinary manifest / manifest list into many blocks, and a file cut at "
+             "an interior block boundary is a WELL-FORMED shorter container: the readers return a subset of the entries without any "
+             "error (with the default, a cut anywhere after the header of an ordinary manifest fails to parse)", 2)
+    n = 0
+    for f in sorted(ctx.prog.functions.values(), key=lambda x: x.qname):
+        if isinstance(f.node, ast.Lambda):
+            continue
+        for c in ctx.cfg(f).calls():
+            if isinstance(c.ast, ast.Call) and (dotted(c.ast.func) or "").split(".")[-1] == "writer" and "avro" in (dotted(c.ast.func) or "").lower():
+                n += 1
+                si = kwarg(c.ast, "sync_interval")
+                ctx.ob(rid, f, "Avro writer uses the default block size", c, si is None,
+                       "no sync_interval" if si is None else f"sync_interval={norm_text(si)[:30]}: truncation at a block boundary goes unnoticed")
+    if n < 2:
+        raise AnalysisError(f"only {n} fastavro.writer call(s) found")
+
+
+def metadata_reader_is_strict(ctx: Ctx, rid: str = "C14.R12") -> None:
+    ctx.rule(rid, "writer / reader agreement of the table metadata: every top-level key _metadata_to_dict writes is read by "
+             "_dict_to_metadata with a subscript on the decoded document (KeyError when absent) - never `.get(key) or <empty>`: a "
+             "metadata file whose `snapshots` / `snapshot_log` is missing or null must fail to load, not load as a table with no "
+             "snapshots (readers would answer [], the collector would find nothing reachable and delete every file)", 8)
+    w = ctx.fn("metadata_manager.MetadataManager._metadata_to_dict")
+    r = ctx.fn("metadata_manager.MetadataManager._dict_to_metadata")
+    written: Set[str] = set()
+    for _n, v in effective_returns(ctx, w):
+        for src, _a in resolve_value(ctx, w, v, _n.id):
+            if isinstance(src, ast.Dict):
+                written |= {k.value for k in src.keys if isinstance(k, ast.Constant) and isinstance(k.value, str)}
+    if len(written) < 8:
+        raise AnalysisError(f"only {len(written)} top-level keys found in _metadata_to_dict's result")
+    param = next((p.name for p in r.params if p.name != "self"), None)
+    if param is None:
+        raise AnalysisError("_dict_to_metadata lost its document parameter")
+    strict: Set[str] = set()
+    lenient: Dict[str, str] = {}
+    for x in walk_all(ctx, r):
+        if isinstance(x, ast.Subscript) and isinstance(x.value, ast.Name) and x.value.id == param and isinstance(x.slice, ast.Constant) \
+                and isinstance(x.slice.value, str):
+            strict.add(x.slice.value)
+        if isinstance(x, ast.Call) and isinstance(x.func, ast.Attribute) and x.func.attr in ("get", "pop", "setdefault") \
+                and isinstance(x.func.value, ast.Name) and x.func.value.id == param and x.args and isinstance(x.args[0], ast.Constant) \
+                and isinstance(x.args[0].value, str):
+            lenient[x.args[0].value] = norm_text(x)[:60]
+    for k in sorted(written):
+        ok = k in strict and k not in lenient
+        ctx.ob(rid, r, f"`{k}` is read strictly", None, ok,
+               "metadata_dict[...]: absent -> KeyError" if ok else
+               (f"`{lenient[k]}` substitutes a default for a missing / null `{k}`" if k in lenient else f"`{k}` is written but never read back")
+               + ": a damaged metadata file loads as a smaller table instead of failing", text=k)
 
 
 def checksum_producers(ctx: Ctx, rid: str = "C14.R11") -> None:
@@ -531,6 +588,23 @@ def r3(ctx: Ctx) -> None:
                     and norm_text(c.ast.func.value) == sname and c.ast.args and norm_text(c.ast.args[0]) == x]
             ok = bool(adds)
             why += " (duplicate of an already collected file)"
+            # ... and the de-duplication key identifies the FILE: the path itself, at most stripped of leading slashes - a key
+            # that drops directories (basename), case or a suffix merges distinct files and silently drops one of them
+            def path_key(e: Optional[ast.AST], depth: int = 0) -> bool:
+                if e is None or depth > 4:
+                    return False
+                if isinstance(e, ast.Attribute):
+                    return e.attr == "file_path"
+                if isinstance(e, ast.Call) and isinstance(e.func, ast.Attribute) and e.func.attr in ("lstrip", "strip") \
+                        and all(isinstance(a_, ast.Constant) and a_.value == "/" for a_ in e.args):
+                    return path_key(e.func.value, depth + 1)
+                if isinstance(e, ast.Call) and isinstance(e.func, ast.Name) and e.func.id == "str" and len(e.args) == 1:
+                    return path_key(e.args[0], depth + 1)
+                return False
+            srcs = [x_ for x_, _a in resolve_value(ctx, f, inner.ast.left, inner.id)]
+            if ok and not (srcs and all(path_key(x_) for x_ in srcs)):
+                ok = False
+                why += f" - but the key `{' | '.join(norm_text(x_)[:50] for x_ in srcs if x_ is not None)}` is not the file's path"
         ctx.ob("C14.R3", f, "`continue` only for an empty path entry or a duplicate", s_, ok, f"skip condition: `{why}`")
 
 
@@ -669,6 +743,28 @@ def r4(ctx: Ctx) -> None:
             ctx.ob("C14.R4", caller, f"{rf_.name}: the verify flag is the resolved one", n, ok_,
                    "argument -> DATASHARD_VERIFY_CHECKSUMS -> default ON is applied on this path" if ok_ else
                    f"{why_}: under the default setting this read path skips checksum verification and returns altered rows")
+    # the tri-state survives every hop: `verify_checksums=None` means "default ON" only for _resolve_verify_checksums, so an
+    # API that hands the flag on passes its own parameter AS IS (bool(None) is False = verification silently off)
+    n_pass = 0
+    for fcallee in sorted(ctx.prog.functions.values(), key=lambda x: x.qname):
+        vp = next((p_.name for p_ in fcallee.params if p_.name == "verify_checksums"), None)
+        if vp is None or isinstance(fcallee.node, ast.Lambda):
+            continue
+        for caller, n in ctx.eff.call_sites.get(fcallee.qname, []):
+            if not isinstance(n.ast, ast.Call):
+                continue
+            arg = ctx.eff.bind_arg(n.ast, fcallee, vp, True)
+            if arg is None:
+                continue
+            n_pass += 1
+            plain = (isinstance(arg, ast.Name) and any(p_.name == arg.id for p_ in caller.params)
+                     and ctx.cfg(caller).entry in ctx.rd(caller).reaching(n.id, arg.id) and len(ctx.rd(caller).reaching(n.id, arg.id)) == 1) \
+                or (isinstance(arg, ast.Constant) and arg.value in (None, True))
+            ctx.ob("C14.R4", caller, f"{fcallee.name}: verify_checksums is handed on unchanged", n, plain,
+                   "the caller's own parameter (None stays None)" if plain else
+                   f"`{norm_text(arg)[:50]}` re-computes the flag: None (= default ON) no longer reaches _resolve_verify_checksums as None")
+    if n_pass == 0:
+        raise AnalysisError("no API hands verify_checksums on to another (iter_records -> scan_batches vanished?)")
     rv = ctx.fn("transaction.Table._resolve_verify_checksums")
     g = ctx.cfg(rv)
     env = [n for n in g.calls() if n.callee and n.callee.name in ("os.getenv", "os.environ.get")]
